@@ -482,7 +482,9 @@ func ruleReplEntryCodec(c *Ctx, r *Reporter) {
 	var payload ssa.Value
 	AllInstrs(enc, false, func(_ *ssa.Function, ins ssa.Instruction) {
 		if mk, ok := ins.(*ssa.MakeSlice); ok {
-			if bt, ok := mk.Type().Underlying().(interface{ Elem() interface{ String() string } }); ok {
+			if bt, ok := mk.Type().Underlying().(interface {
+				Elem() interface{ String() string }
+			}); ok {
 				_ = bt
 			}
 			if _, isK := mk.Len.(*ssa.Const); !isK && strings.HasSuffix(mk.Type().String(), "[]byte") {
@@ -540,7 +542,9 @@ func ruleReplEntryCodec(c *Ctx, r *Reporter) {
 		if !ok {
 			return
 		}
-		if n, ok := fa.X.Type().Underlying().(interface{ Elem() interface{ String() string } }); ok {
+		if n, ok := fa.X.Type().Underlying().(interface {
+			Elem() interface{ String() string }
+		}); ok {
 			_ = n
 		}
 		if !strings.HasSuffix(fa.X.Type().String(), "wal.Entry") {
